@@ -58,6 +58,7 @@ T_EQ = 'derived PartialEq on MessageClass/RequestType/ResponseType is structural
 CHECKS['C04'] = {
     'level': 'proof',
     'units': ['enc'],
+    'units_thorough': ['enc_udp'],
     'kani': [],
     'technique': 'contract-based deductive verification (Verus) of the real Packet::to_bytes_internal: exact size-limit iff, exact wire image, memory-safety preconditions of the unsafe copy blocks',
     'level_text': 'Unbounded proof over all packets and all limits: the verbatim body of to_bytes_internal (both option loops with inductive invariants over the BTreeMap iteration) returns Ok exactly when the RFC 7252 wire length is within the limit, the output is exactly the wire image (hence has exactly that length), errors are InvalidPacketLength, over-long option values are refused, and every unsafe copy stays inside reserved capacity.',
